@@ -82,6 +82,24 @@ def gen_c01(seed, tier):
             for n in (1, 2, 3, 2, 1):
                 sc.ks_set_key(kind, 0, zero[:n * bs])
                 sc.ks_crypt(False, kind, 0, sc.rb(bs))
+            # refused set_key calls (every wrong-length class, null key) on a keyed object: it goes on
+            # encrypting under its key; then overlapping input/output blocks at every offset class
+            sc.reset("c01-refused-%s-%d" % (kind, z))
+            sc.ks_set_key(kind, 0, sc.rb(z * bs))
+            blk = sc.rb(bs)
+            sc.ks_crypt(True, kind, 0, blk)
+            for badlen in (0, 1, bs - 1, 3 * bs + 1, 4 * bs, None):
+                if badlen is None:
+                    sc.ks_set_key(kind, 0, None, z * bs)
+                else:
+                    sc.ks_set_key(kind, 0, sc.rb(max(badlen, 1)), badlen)
+                sc.ks_crypt(True, kind, 0, blk)
+                sc.ks_crypt(False, kind, 0, blk)
+            for off in ((0, 1, -1, 3, -3, 4, -4, bs // 2, -(bs // 2), bs - 1, -(bs - 1)) if not thorough
+                        else range(-(bs - 1), bs)):
+                blk = sc.rb(bs)
+                sc.ks_crypt(True, kind, 0, blk, ov=off)
+                sc.ks_crypt(False, kind, 0, blk, ov=off)
             nrand = 300 if thorough else 6
             sc.reset("c01-rand-%s-%d" % (kind, z))
             for i in range(nrand):
@@ -231,6 +249,33 @@ def gen_c02(seed, tier):
                 sc.mk_set_tweak(0, bytes([tpat]) * 8)
                 sc.mk_crypt(0, bytes([bpat]) * 8)
                 sc.mk_crypt(0, bytes([bpat]) * 8, tweak=bytes([tpat ^ 0x0F]) * 8)
+    # refused calls (rounds outside 5..8, wrong key length, null key, null tweak object) on a keyed
+    # schedule: it goes on computing MANTIS-r under its key, tweak and mode
+    for r in (5, 6, 7, 8):
+        sc.reset("c02-refused-%d" % r)
+        mode = r % 2
+        sc.mk_set_key(0, sc.rb(16), r, mode)
+        tw = sc.rb(8)
+        sc.mk_set_tweak(0, tw)
+        blk = sc.rb(8)
+        sc.mk_crypt(0, blk)
+        for badr in (0, 1, 4, 9, 12, 255, 256 + r, 0x7FFFFFFF):
+            sc.mk_set_key(0, sc.rb(16), badr, mode)
+            sc.mk_crypt(0, blk)
+            sc.mk_crypt(0, blk, tweak=sc.rb(8))
+        for badlen in (0, 8, 15, 17, 32):
+            sc.mk_set_key(0, sc.rb(max(badlen, 1)), r, 1 - mode, badlen)
+            sc.mk_crypt(0, blk)
+        sc.mk_set_key(0, None, r, mode, 16)
+        sc.mk_crypt(0, blk)
+        # the per-call tweak is not remembered
+        sc.mk_crypt(0, blk, tweak=sc.rb(8))
+        sc.mk_crypt(0, blk)
+        # overlapping input/output blocks
+        for off in (0, 1, -1, 4, -4, 7, -7):
+            b2 = sc.rb(8)
+            sc.mk_crypt(0, b2, ov=off)
+            sc.mk_crypt(0, b2, tweak=sc.rb(8), ov=off)
     sc.reset("c02-rand")
     for i in range(1500 if thorough else 24):
         r = 5 + sc.rng.randrange(4)
@@ -368,7 +413,7 @@ def gen_ctr(seed, tier, cap_for, c06=False):
                 # applying the same stream twice restores the data: second pass in one call
                 sc.ctr_encrypt(kind, o, data)
             sc.ctr_cleanup(kind, o)
-        if c06:
+        if True:
             # 4. key / tweak / counter changes and invalid calls in the middle of a stream
             for i in range(20 if thorough else 3):
                 sc.reset("ctr-mid-%s-%d" % (kind, i))
@@ -447,12 +492,40 @@ def gen_ctr(seed, tier, cap_for, c06=False):
                 sc.ctr_encrypt(kind, 0, sc.rb(7))
                 sc.ctr_set_key(kind, 0, k2)                  # same plain key again, mid-block
                 sc.ctr_encrypt(kind, 0, sc.rb(7))
+                # the plain key again AFTER a tweaked key (and a tweak) replaced it, and vice versa
+                sc.ctr_set_tweaked_key(kind, 0, k1)
+                sc.ctr_set_tweak(kind, 0, t1)
+                sc.ctr_encrypt(kind, 0, sc.rb(bs + 3))
+                sc.ctr_set_key(kind, 0, k2)
+                sc.ctr_encrypt(kind, 0, sc.rb(bs + 3))
+                sc.ctr_set_tweaked_key(kind, 0, k1)
+                sc.ctr_encrypt(kind, 0, sc.rb(bs + 3))
             c1 = sc.rb(bs)
             sc.ctr_set_counter(kind, 0, c1)
             sc.ctr_encrypt(kind, 0, sc.rb(3))
             sc.ctr_set_counter(kind, 0, c1)                  # same counter again: the stream restarts
             sc.ctr_encrypt(kind, 0, sc.rb(bs + 3))
             sc.ctr_cleanup(kind, 0)
+            # 4d. every class of RELATED tweak after a full-length tweak with a non-zero tail (prefix of the
+            #     tweak in force, shared half, one bit, counter step, the same value), stream mid-block
+            if kind != "mantis":
+                sc.reset("ctr-related-%s" % kind)
+                sc.ctr_init(kind, 0, cap=cap)
+                sc.ctr_set_tweaked_key(kind, 0, sc.rb(sc.rng.choice((1, 2)) * bs))
+                for cls in range(7):
+                    full = sc.rb_nz(bs)
+                    sc.ctr_set_tweak(kind, 0, full)
+                    sc.ctr_encrypt(kind, 0, sc.rb(bs + 3))
+                    sc.ctr_set_tweak(kind, 0, related_tweak(sc, full, cls))
+                    sc.ctr_encrypt(kind, 0, sc.rb(2 * bs + 1))
+                for ln in (1, bs // 2, bs - 1):
+                    full = sc.rb_nz(bs)
+                    sc.ctr_set_tweak(kind, 0, full)
+                    sc.ctr_encrypt(kind, 0, sc.rb(3))
+                    sc.ctr_set_tweak(kind, 0, full[:ln])
+                    sc.ctr_encrypt(kind, 0, sc.rb(bs + 1))
+                sc.ctr_cleanup(kind, 0)
+        if c06:
             # 4c. unconstrained API fuzz: ANY public CTR function with valid or invalid arguments in ANY
             #     order (plain key then tweak change, re-keying in the other family, tweak on an unkeyed
             #     object ...): the contract models all of it, so every back end must agree with it
@@ -596,6 +669,26 @@ def check_C05(work, tier, seed):
                      "code-level: inputs sampled; reference trace validated by TLC, other back ends by identity or TLC"])
 
 
+def gen_par_c06(seed, tier, cap_for):
+    """parallel-ECB call sequences for the back-end comparison: gen_c07's block counts, re-keys and
+    refused requests, plus every remainder 0..23 in the DEcrypt direction per key size"""
+    sc = gen_c07(seed, tier, cap_for)
+    for kind in ("s128", "s64"):
+        bs = BS[kind]
+        sc.reset("c06-par-dec-%s" % kind)
+        sc.par_init(kind, 0, cap=cap_for(kind))
+        for z in (1, 2, 3):
+            sc.par_set_key(kind, 0, sc.rb(z * bs))
+            for nb in range(z - 1, 24, 3 if tier != "thorough" else 1):
+                sc.par_crypt(kind, 0, sc.rb(nb * bs), enc=False, ip=1 if nb % 4 == 0 else None)
+        # refused requests in between leave the object as it is
+        sc.par_set_key(kind, 0, sc.rb(bs - 1))
+        sc.par_crypt(kind, 0, sc.rb(3 * bs + 1), enc=True)
+        sc.par_crypt(kind, 0, sc.rb(12 * bs), enc=False)
+        sc.par_cleanup(kind, 0)
+    return sc
+
+
 def check_C06(work, tier, seed):
     out = Outcome()
     r, ok = run_mc(work, out, "MC_Ctr", "MC_Ctr", must_cover=("DoInit", "DoSetCounter", "DoSetKey", "DoEncrypt"))
@@ -609,6 +702,11 @@ def check_C06(work, tier, seed):
             mc_violation("C06", out, "MC_Ctr8", r)
     b = build(work)
     lines = backend_sweep(work, b, "C06", seed + 1000, lambda cf: gen_ctr(seed + 1000, tier, cf, c06=True), out)
+    # parallel ECB objects: every block-count remainder in both directions, re-keying, refused calls,
+    # and every transition of the object's state graph, under every back end
+    lines += backend_sweep(work, b, "C06", seed + 1001, lambda cf: gen_par_c06(seed + 1001, tier, cf), out)
+    lines += backend_sweep(work, b, "C06", seed + 1002, lambda cf: graph_par_scenarios(work, seed + 1002, cf, Outcome()), out)
+    graph_par_scenarios(work, seed, lambda k: 2, out, kinds=())
     note_distinct(out, lines, ("o", "n", "ctr", "cap"))
     out.samples = sample_events([x for x in lines if '"ctr_' in x])
     return out, dict(
@@ -626,12 +724,12 @@ CHECKS.update({"C05": check_C05, "C06": check_C06})
 
 # ------------------------------------------------------------------ C04 tweak histories
 
-def related_tweak(sc, t):
+def related_tweak(sc, t, cls=None):
     """a tweak related to t: same first half / same last half / one byte or one bit changed /
     counter-like increment of the last byte / a prefix of t / t itself"""
     t = bytearray(t)
     n = len(t)
-    c = sc.rng.randrange(7)
+    c = sc.rng.randrange(7) if cls is None else cls
     if c == 0:
         t[n // 2:] = sc.rb_nz(n - n // 2)
     elif c == 1:
@@ -674,6 +772,17 @@ def gen_c04(seed, tier, cap_for=lambda k: 2):
             sc.ks_set_tweak(kind, 0, sc.rb(bs + 1), bs + 1)
             sc.ks_set_tweak(kind, "null", sc.rb(bs))
             sc.ks_crypt(True, kind, 0, blk, t=1)
+            # refused re-keys (every wrong length class, null key) with a non-zero tweak in force leave
+            # key AND remembered tweak alone: the next tweak change must still give fresh(key, tweak)
+            for badlen in (0, 1, bs - 1, 2 * bs + 1, 3 * bs, 3 * bs + 1, None):
+                sc.ks_set_tweak(kind, 0, sc.rb_nz(bs))
+                if badlen is None:
+                    sc.ks_set_tweaked_key(kind, 0, None, bs)
+                else:
+                    sc.ks_set_tweaked_key(kind, 0, sc.rb(max(badlen, 1)), badlen)
+                sc.ks_crypt(True, kind, 0, blk, t=1)
+                sc.ks_set_tweak(kind, 0, sc.rb_nz(sc.rng.randrange(1, bs + 1)))
+                sc.ks_crypt(True, kind, 0, blk, t=1)
             # random histories
             for h in range(20 if thorough else 2):
                 sc.reset("c04-hist-%s-%d-%d" % (kind, z, h))
@@ -686,7 +795,10 @@ def gen_c04(seed, tier, cap_for=lambda k: 2):
                         sc.ks_set_tweak(kind, o, None, sc.rng.randrange(1, bs + 1))
                     elif r < 0.12:
                         sc.ks_set_tweaked_key(kind, o, sc.rb(sc.rng.choice((1, 2)) * bs))
-                    elif r < 0.16:
+                    elif r < 0.14:
+                        n = sc.rng.choice((0, bs - 1, 2 * bs + 1))
+                        sc.ks_set_tweaked_key(kind, o, sc.rb(max(n, 1)), n)
+                    elif r < 0.18:
                         # plain key straight into the public inner schedule, then tweak changes go on
                         sc.op("ks_set_key", k=kind, o=o, t=1, key=hx(sc.rb(sc.rng.randrange(bs, 3 * bs + 1))), pk=sc.pl())
                     elif r < 0.5:
@@ -716,6 +828,11 @@ def gen_c04(seed, tier, cap_for=lambda k: 2):
                     sc.ctr_set_tweak(kind, 0, None, sc.rng.randrange(1, bs + 1))
                 else:
                     sc.ctr_set_tweak(kind, 0, sc.rb_nz(sc.rng.randrange(1, bs + 1)))
+                if j % 2 == 1:
+                    # a refused re-key in between must not disturb the next tweak change
+                    n = sc.rng.choice((0, bs - 1, 2 * bs + 1))
+                    sc.ctr_set_tweaked_key(kind, 0, sc.rb(max(n, 1)), n)
+                    sc.ctr_set_tweak(kind, 0, sc.rb_nz(sc.rng.randrange(1, bs + 1)))
                 sc.ctr_set_counter(kind, 0, sc.rb(bs))
                 sc.ctr_encrypt(kind, 0, sc.rb(sc.rng.randrange(1, 3 * bs)))
             # tweak changes WITHOUT a new counter, the stream stopped in every block of an 8-block batch
@@ -734,10 +851,10 @@ def gen_c04(seed, tier, cap_for=lambda k: 2):
 
 def check_C04(work, tier, seed):
     out = Outcome()
-    r, ok = run_mc(work, out, "MC_Tweak", "MC_Tweak", must_cover=("SetTweakedKey", "SetTweak", "SetTweakNull"))
+    r, ok = run_mc(work, out, "MC_Tweak", "MC_Tweak", must_cover=("SetTweakedKey", "SetTweak", "SetTweakNull", "SetTweakedKeyBad"))
     if not ok:
         mc_violation("C04", out, "MC_Tweak", r)
-    for neg in ("MCneg_Tweak_stale", "MCneg_Tweak_noext", "MCneg_Tweak_xornew"):
+    for neg in ("MCneg_Tweak_stale", "MCneg_Tweak_noext", "MCneg_Tweak_xornew", "MCneg_Tweak_badkeyclears"):
         run_mc(work, out, "MC_Tweak", neg, expect_fail=True)
     b = build(work)
     lines = backend_sweep(work, b, "C04", seed, lambda cf: gen_c04(seed, tier, cf), out)
@@ -815,7 +932,8 @@ def gen_c03(seed, tier, cap_for=lambda k: 2):
             sc.ks_set_key(kind, 0, key)
             sc.par_init(kind, 0, cap=cap_for(kind))
             sc.par_set_key(kind, 0, key)
-            for nb in ((1, 4, 9, 17, 19) if thorough else (9, 17)):
+            # block counts: every remainder of the widest group (8) shows up in BOTH directions per kind
+            for nb in (tuple(range(1, 20)) if thorough else ((9, 12, 17), (13, 14, 18), (15, 19, 11))[z - 1]):
                 data = sc.rb(nb * bs)
                 sc.par_crypt(kind, 0, data, enc=True)
                 sc.par_crypt(kind, 0, data, enc=False)      # decrypt arbitrary data
@@ -895,6 +1013,34 @@ def gen_c07(seed, tier, cap_for=lambda k: 2):
         for n in (1, bs - 1, bs + 1, 8 * bs + 3):
             sc.par_crypt(kind, 0, sc.rb(n), tweak=sc.rb(16 * 8) if kind == "mantis" else None)
         sc.par_cleanup(kind, 0)
+        # one object keyed again and again after whole groups were processed (other key, other size /
+        # rounds / mode, the same key, a refused key): always block-by-block ECB under the key in force
+        sc.reset("c07-rekey-%s" % kind)
+        sc.par_init(kind, 0, cap=cap_for(kind))
+        k1 = sc.rb(16 if kind == "mantis" else 2 * bs)
+        for step, (key, kw) in enumerate((
+                (k1, dict(rounds=6, mode=1)),
+                (sc.rb(len(k1)), dict(rounds=6, mode=1)),
+                (sc.rb(16 if kind == "mantis" else 3 * bs), dict(rounds=8, mode=0)),
+                (sc.rb(16 if kind == "mantis" else bs), dict(rounds=5, mode=0)),
+                (k1, dict(rounds=5, mode=1)),
+                (k1, dict(rounds=5, mode=1)),
+                (sc.rb(bs - 1), dict(rounds=7, mode=1)),          # refused: the key in force stays
+                (sc.rb(len(k1)), dict(rounds=7, mode=0)))):
+            if kind == "mantis":
+                sc.par_set_key(kind, 0, key, **kw)
+            else:
+                sc.par_set_key(kind, 0, key)
+            nb = (19, 8, 17, 9, 16, 3, 18, 11)[step]
+            data = sc.rb(nb * bs)
+            tw = sc.rb(nb * 8) if kind == "mantis" else None
+            sc.par_crypt(kind, 0, data, enc=True, tweak=tw)
+            if kind != "mantis":
+                sc.par_crypt(kind, 0, data, enc=False)
+            elif step % 2:
+                sc.par_swap(0)
+                sc.par_crypt(kind, 0, data, tweak=tw)
+        sc.par_cleanup(kind, 0)
         if kind == "mantis":
             for r in (5, 6, 7, 8):
                 for mode in (1, 0):
@@ -937,6 +1083,9 @@ def check_C07(work, tier, seed):
         for cap in (2, 1, 0):
             axis_compare(work, "C07", seed, out, lines, "%s cap %d" % (defs[0], cap), b2,
                          gen_c07(seed, tier, lambda k, cap=cap: cap).text(), "-%s%d" % (bname, cap))
+    # spec -> impl: every transition of the parallel object's state graph (incl. re-keying after whole
+    # groups were processed) on the real objects
+    lines += conform(work, b, "C07", seed, graph_par_scenarios(work, seed, lambda k: 2, out).text(), out, tag="-graph")
     note_distinct(out, lines, ("o", "n", "tweak", "cap"))
     out.samples = sample_events([x for x in lines if '"par_' in x])
     return out, dict(
@@ -972,6 +1121,25 @@ def gen_c10(seed, tier, cap_for=lambda k: 2):
                 sc.ks_crypt(True, kind, 0, blk)
                 if thorough:
                     sc.ks_crypt(False, kind, 0, blk)
+        # sparse keys: a short last part that starts (or ends) with zero bytes is still key material
+        sc.reset("c10-sparse-%s" % kind)
+        for ln in range(bs + 1, 3 * bs):
+            if ln % bs == 0:
+                continue
+            full = ln // bs * bs
+            shapes = [bytes(ln - 1) + sc.rb_nz(1),                               # only the last byte
+                      sc.rb_nz(full) + bytes(ln - full - 1) + sc.rb_nz(1),       # part: zeros then one byte
+                      sc.rb_nz(full) + sc.rb_nz(1) + bytes(ln - full - 1)]       # part: one byte then zeros
+            for si_, key in enumerate(shapes):
+                if not thorough and (ln + si_) % 3:
+                    continue
+                blk = sc.rb(bs)
+                sc.ks_set_key(kind, 0, key)
+                sc.ks_crypt(True, kind, 0, blk)
+                if ln <= 2 * bs:
+                    sc.ks_set_tweaked_key(kind, 0, key)
+                    sc.ks_crypt(True, kind, 0, blk, t=1)
+        sc.reset("c10-ks2-%s" % kind)
         for h in HUGE:
             sc.ks_set_key(kind, 0, sc.rb_nz(3 * bs), h)
         sc.ks_set_key(kind, 0, None, bs)
@@ -1004,6 +1172,15 @@ def gen_c10(seed, tier, cap_for=lambda k: 2):
         sc.ctr_cleanup(kind, 0)
         sc.reset("c10-ctrt-%s" % kind)
         sc.ctr_init(kind, 0, cap=cap_for(kind))
+        # one object keyed alternately through both families with the SAME bytes coming back: each accepted
+        # call means the key it was given (zero-padded), whatever the object held before
+        for ln in (bs, bs + bs // 4, 2 * bs, 3 * bs - 1, 3 * bs):
+            kp, kt = sc.rb_nz(ln), sc.rb_nz(min(ln, 2 * bs))
+            for step in range(2):
+                sc.ctr_set_key(kind, 0, kp)
+                sc.ctr_encrypt(kind, 0, sc.rb(bs + 1))
+                sc.ctr_set_tweaked_key(kind, 0, kt)
+                sc.ctr_encrypt(kind, 0, sc.rb(bs + 1))
         for ln in lens:
             key = sc.rb_nz(max(ln, 1))[:ln] if ln else b""
             sc.ctr_set_tweaked_key(kind, 0, key if ln else b"", ln)
@@ -2570,6 +2747,8 @@ class SecretSc(Sc):
     def rctr(self, n):
         """a (secret) counter value; the edge modes make the lane counters pass through zero
         right after the first batch, so that carry AND borrow chains differ between runs"""
+        if n == 0:
+            return b""
         if self.mode == "edge8":
             return b"\xff" * (n - 1) + b"\xf8"
         if self.mode == "edge4":
@@ -2622,6 +2801,11 @@ def gen_c08(seed, tier, secret_mode, scalar_only=False):
             sc.ctr_set_counter(kind, 0, sc.rctr(bs))
             for n in (1, bs - 1, bs + 1, 4 * bs, 8 * bs + 3, 2, 9 * bs):
                 sc.ctr_encrypt(kind, 0, sc.rb(n))
+            # every counter LENGTH 0..bs (short counters take their own paths) with secret values
+            for ln in range(0, bs + 1):
+                sc.ctr_set_counter(kind, 0, sc.rctr(ln))
+                if ln % 4 == 0:
+                    sc.ctr_encrypt(kind, 0, sc.rb(3))
             sc.ctr_set_key(kind, 0, sc.rb(16 if kind == "mantis" else 3 * bs), rounds=6)     # rekey mid-stream
             sc.ctr_set_counter(kind, 0, sc.rctr(bs // 2))
             sc.ctr_encrypt(kind, 0, sc.rb(3 * bs + 1), ip=1)
@@ -2806,6 +2990,7 @@ def graph_ctr_scenarios(work, seed, cap_for, out, kinds=("s128", "s64", "mantis"
             sc.reset("g-ctr-%s-%d" % (kind, si))
             live, j, since = False, 0, 0
             curkey, curtw = None, bytes(tl)
+            famkey = {}
             for lab in seq:
                 name, a = _label(lab)
                 if name == "DoInit":
@@ -2814,6 +2999,7 @@ def graph_ctr_scenarios(work, seed, cap_for, out, kinds=("s128", "s64", "mantis"
                                 prefill=sc.rng.choice([None, 0, 0xA5]) if not live else None)
                     live, j, since = (not fail), 0, 0
                     curkey, curtw = None, bytes(tl)
+                    famkey = {}
                 elif name == "DoCleanup":
                     sc.ctr_cleanup(kind, 0)
                     live = False
@@ -2828,8 +3014,21 @@ def graph_ctr_scenarios(work, seed, cap_for, out, kinds=("s128", "s64", "mantis"
                         if live:
                             j, since = 0, (since + bs - 1) // bs * bs
                             curkey = (kb_, kw.get("rounds"))
+                            famkey[tweaked] = curkey
                             if tweaked or kind == "mantis":
                                 curtw = bytes(tl)      # keying (tweakable / Mantis) resets the tweak to zero
+                    elif cls == "previous":
+                        # the very key this object held in this family before a key of the other family
+                        # replaced it
+                        kk, rr_ = famkey[tweaked]
+                        if kind == "mantis" or not tweaked:
+                            setk(kind, 0, kk, rounds=rr_)
+                        else:
+                            setk(kind, 0, kk)
+                        curkey = (kk, rr_)
+                        j, since = 0, (since + bs - 1) // bs * bs
+                        if tweaked or kind == "mantis":
+                            curtw = bytes(tl)
                     elif cls == "same":
                         # the very key that is already in force, again (mid-stream)
                         kk, rr_ = curkey if curkey else (sc.rb_nz(16 if kind == "mantis" else bs), 6)
@@ -2970,6 +3169,13 @@ def graph_tweak_scenarios(work, seed, out):
                     sc.ks_set_tweak(kind, 0, tw)
                 elif name == "SetTweakNull":
                     sc.ks_set_tweak(kind, 0, None, int(a[0]) * h)
+                elif name == "SetTweakedKeyBad":
+                    why = int(a[0])
+                    if why == 2:
+                        sc.ks_set_tweaked_key(kind, 0, None, bs)
+                    else:
+                        n = sc.rng.randrange(0, bs) if why == 0 else sc.rng.randrange(2 * bs + 1, 3 * bs + 2)
+                        sc.ks_set_tweaked_key(kind, 0, sc.rb(max(n, 1)), n)
                 else:
                     ln = int(a[0])
                     sc.ks_set_tweak(kind, 0, sc.rb(bs + 1), 0 if ln == 0 else bs + 1)
